@@ -393,3 +393,63 @@ fn script_preserve_code_transform() {
     let secs = r["emits"][0]["dump"]["sections"].as_array().unwrap();
     assert!(secs.contains(&serde_json::json!("custom:vreplay-probe")));
 }
+
+fn dwarf(name: &str) -> Value {
+    let p = here("tests/dwarf").join(name);
+    let (r, code) = run_json(&["dwarf", p.to_str().unwrap()]);
+    assert_eq!(code, 0);
+    r
+}
+
+#[test]
+fn dwarf_three_functions() {
+    for v in [4, 5] {
+        let r = dwarf(&format!("three_v{}_gc_false.json", v));
+        assert_eq!(r["status"], "ok", "{}", r["error"]);
+        assert_eq!(r["input"]["funcs"].as_array().unwrap().len(), 3);
+        assert_eq!(r["input"]["funcs"][0]["entry_start"], 1);
+        assert_eq!(r["input"]["funcs"][0]["body_start"], 2);
+        assert_eq!(r["rows_in"][0], serde_json::json!([3, 1000, false]));
+        assert_eq!(r["subprograms_in"][1]["name"], "f1");
+        let s = &r["checks"]["summary"];
+        assert_eq!(s["rows_in"], 15);
+        assert_eq!(s["rows_out"], 15);
+        assert_eq!(s["row_mismatches"], 0);
+        assert_eq!(s["rows_lost"], 0);
+        assert_eq!(s["subprogram_mismatches"], 0);
+
+        let r = dwarf(&format!("three_v{}_gc_true.json", v));
+        assert_eq!(r["status"], "ok", "{}", r["error"]);
+        assert_eq!(r["output"]["funcs"].as_array().unwrap().len(), 2);
+        assert_eq!(r["checks"]["function_map"][2]["out"], Value::Null);
+        let s = &r["checks"]["summary"];
+        assert_eq!(s["rows_in"], 15);
+        assert_eq!(s["row_mismatches"], 0);
+        assert_eq!(s["subprogram_mismatches"], 0);
+    }
+    // file index 0 (DWARF 5) and the alternative low_pc convention: only the
+    // report shape is pinned, the verdict is walrus' business
+    let r = dwarf("three_v5_file0.json");
+    assert!(r["status"] == "ok" || r["status"] == "panic", "{}", r);
+    assert!(r["notes"][0].as_str().unwrap().contains("patched 3"));
+    let r = dwarf("three_v4_sizeleb.json");
+    assert_eq!(r["status"], "ok");
+    assert_eq!(r["subprograms_in"][0]["low_pc"], 1);
+    assert!(r["checks"]["summary"]["subprogram_mismatches"].is_u64());
+}
+
+#[test]
+fn dwarf_size_leb_shrinks() {
+    for v in [4, 5] {
+        let r = dwarf(&format!("leb_shrink_v{}.json", v));
+        assert_eq!(r["status"], "ok", "{}", r["error"]);
+        // input body >= 128 bytes (2-byte size LEB), output < 128 (1-byte)
+        let fi = &r["input"]["funcs"][0];
+        let fo = &r["output"]["funcs"][0];
+        assert_eq!(fi["body_start"].as_u64().unwrap() - fi["entry_start"].as_u64().unwrap(), 2);
+        assert_eq!(fo["body_start"].as_u64().unwrap() - fo["entry_start"].as_u64().unwrap(), 1);
+        let s = &r["checks"]["summary"];
+        assert_eq!(s["rows_in"], 94);
+        assert!(s["rows_lost"].as_u64().unwrap() >= 10); // the 10 nops
+    }
+}
